@@ -7,6 +7,7 @@ def sh(cmd, **kw):
     return subprocess.run(cmd, shell=True, stdout=subprocess.PIPE, stderr=subprocess.STDOUT, text=True, **kw)
 seeds = sys.argv[1:] or sorted(d for d in os.listdir(os.path.join(VERIF, "seeded")) if os.path.isdir(os.path.join(VERIF, "seeded", d)))
 inplace = "--inplace" in sys.argv
+norefine = "--no-refine" in sys.argv      # T1/T2 only (VERIF_NO_REFINE=1): is there a CONCRETE replay without the T0 obligations?
 seeds = [x for x in seeds if not x.startswith("--")]
 if inplace:
     st = sh("git -C /repo status --porcelain --untracked-files=no").stdout.strip()
@@ -17,6 +18,7 @@ for sid in seeds:
     pid = sid.split("-")[0]
     props = [pid]
     env = dict(os.environ)
+    if norefine: env["VERIF_NO_REFINE"] = "1"
     if inplace:
         # the way a user would do it: apply to /repo, run the check, undo
         r = sh("git -C /repo apply %s/patch.diff" % d)
@@ -37,7 +39,8 @@ for sid in seeds:
             t0 = time.time()
             r = subprocess.run("python3 %s/check.py %s --tier quick" % (VERIF, p), shell=True, stdout=subprocess.PIPE, stderr=subprocess.STDOUT, text=True, env=env)
             v = [l for l in r.stdout.splitlines() if l.startswith("VIOLATION")]
-            res[p] = {"exit": r.returncode, "violations": v, "wall_s": round(time.time() - t0, 1)}
+            res[p] = {"exit": r.returncode, "violations": v, "wall_s": round(time.time() - t0, 1),
+                      "t0_obligations": "off (VERIF_NO_REFINE=1: what T1/T2 alone find)" if norefine else "on"}
             for l in v:
                 rp = l.split("replay=")[1].split()[0]
                 if os.path.exists(rp):
